@@ -186,9 +186,13 @@ type allocRun struct {
 	classes                                       map[string]bool
 	// nb: a second allocator alive in the same process whose pool is the upper half of this one's (same
 	// block size, another base): what one of them is asked must not leak into the other
-	nb     allocators.Allocator
-	nbPool *model.Pool
-	nbOut  map[uint64]bool
+	// the most recent hint that named a block in use (the address as given, and its block): a client that was
+	// refused its old prefix asks for it again, byte for byte, once it has become free
+	refusedIP    net.IP
+	refusedBlock uint64
+	nb           allocators.Allocator
+	nbPool       *model.Pool
+	nbOut        map[uint64]bool
 }
 
 func (r *allocRun) tr(format string, a ...any) {
@@ -423,7 +427,13 @@ func (r *allocRun) doAlloc() {
 	case k < 3:
 		// no hint
 	case k < 6: // hint on a free block
-		if b, ok := r.pickBlock(false); ok {
+		if r.refusedIP != nil && !r.out[r.refusedBlock] && r.rng.Intn(2) == 0 {
+			class = "free-block"
+			hintBlock = int64(r.refusedBlock)
+			hint.IP = append(net.IP(nil), r.refusedIP...)
+			r.refusedIP = nil
+			r.ctx.Count("alloc.hint_repeated_after_its_block_became_free", 1)
+		} else if b, ok := r.pickBlock(false); ok {
 			class = "free-block"
 			hintBlock = int64(b)
 			hint.IP = r.addrIn(int64(b), r.rng.Intn(2) == 0)
@@ -432,6 +442,7 @@ func (r *allocRun) doAlloc() {
 		if b, ok := r.pickBlock(true); ok {
 			class = "taken-block"
 			hint.IP = r.addrIn(int64(b), r.rng.Intn(2) == 0)
+			r.refusedIP, r.refusedBlock = append(net.IP(nil), hint.IP...), b
 		}
 	case k == 8: // outside, below
 		d := int64(1 + r.rng.Intn(int(min64(p.N+2, 70))))
@@ -655,6 +666,9 @@ func (r *allocRun) doFree() {
 		}
 	case k < 5: // outstanding block, named exactly
 		if b, ok := r.pickBlock(true); ok {
+			if r.refusedIP != nil && r.out[r.refusedBlock] && r.rng.Intn(2) == 0 {
+				b = r.refusedBlock // the block somebody was just refused
+			}
 			class, wantOK, wantIdx = "outstanding", true, b
 			target.IP = r.addrIn(int64(b), true)
 			setMask(p.Page)
